@@ -4,7 +4,7 @@ repository tests unchanged) in the scratch worktree /tmp/mutrun, run the quick c
 not touched), and file it under /verif/seeded/<ID>-<k>/ with the outcome in meta.json."""
 import json, os, shutil, subprocess, sys, time
 
-WT = '/tmp/mutrun'
+WT = os.environ.get('WT', '/tmp/mutrun')   # one scratch worktree per concurrent lane
 pid = sys.argv[1]
 ks = sys.argv[2:] or ['1', '2']
 also = os.environ.get('ALSO', '').split()
@@ -28,7 +28,11 @@ for k in ks:
         print(pid, k, 'PATCH DOES NOT APPLY to current HEAD:', a.stdout[:300]); continue
     try:
         d1 = sh('cd /tmp && %s timeout 600 /venv/bin/python %s' % (env, demo)).returncode
-        t = sh('cd %s && timeout 1500 /venv/bin/python -m pytest -q -p no:cacheprovider --timeout=900 2>&1 | tail -1' % WT).stdout.strip()
+        prev = '/verif/seeded/%s-%s/meta.json' % (pid, k)
+        if os.environ.get('SKIPTESTS') and os.path.exists(prev):   # re-evaluation after strengthening: suite result already on file
+            t = json.load(open(prev))['confirmed']['test_suite_with_change']
+        else:
+          t = sh('cd %s && timeout 1500 /venv/bin/python -m pytest -q -p no:cacheprovider --timeout=900 2>&1 | tail -1' % WT).stdout.strip()
         checks = {}
         for p in [pid] + also:
             t0 = time.time()
@@ -37,7 +41,7 @@ for k in ks:
             checks[p] = dict(exit=r.returncode, violation_lines=nv, wall_s=round(time.time() - t0, 1), first_sig=[l.strip() for l in r.stdout.splitlines() if l.startswith('  sig=')][:2])
     finally:
         sh('git -C %s checkout -- .' % WT)
-        sh('cd /verif && git checkout -- evidence; rm -rf /verif/replays/%s' % pid)
+        sh('cd /verif && git checkout -- evidence; rm -rf /verif/replays/%s' % pid) if not os.environ.get('KEEP') else None
     ok = d0 == 0 and d1 != 0 and '841 passed' in t and '1 failed' in t
     print(pid, k, 'demo clean/changed: %s/%s' % (d0, d1), '| tests:', t[:60], '| confirmed' if ok else '| NOT CONFIRMED', '|', {p: (c['exit'], c['violation_lines']) for p, c in checks.items()}, flush=True)
     if ok:
